@@ -703,6 +703,12 @@ func (mpt *MerklePatriciaTrie) deleteAtNode(key Key, node Node, prefix, path Pat
 			return nil, nil, err
 		}
 		switch cnodeImpl := cnode.(type) {
+		case nil:
+			// the whole subtree below the extension is gone: the extension goes with it
+			if err := mpt.deleteNode(node); err != nil {
+				return nil, nil, err
+			}
+			return nil, nil, nil
 		case *LeafNode:
 			// if extension child changes from full node to leaf, convert the extension into a leaf node
 			nnode := cnode.Clone().(*LeafNode)
